@@ -30,6 +30,122 @@ fn binop(name: &str, a: CelValue, b: CelValue) -> Result<CelValue, String> {
     })
 }
 
+fn program_from_code(code: Vec<rscel::ByteCode>) -> Result<rscel::Program, String> {
+    // Program::new needs the unnameable CelByteCode; go through serde.
+    let bc = serde_json::to_value(&code).map_err(|e| e.to_string())?;
+    let j = serde_json::json!({"details": {"source": null, "params": []}, "bytecode": {"inner": bc}});
+    serde_json::from_value::<rscel::Program>(j).map_err(|e| e.to_string())
+}
+
+fn expect(t: &mut Toks, s: &str) -> Result<(), String> {
+    let x = t.next()?;
+    if x != s {
+        return Err(format!("expected {} got {}", s, x));
+    }
+    Ok(())
+}
+
+#[derive(Clone)]
+enum UFun {
+    Const(CelValue),
+    Arg0,
+    This,
+    Args,
+}
+
+thread_local! {
+    static CALL_LOG: std::cell::RefCell<Vec<(String, CelValue, Vec<CelValue>)>> = std::cell::RefCell::new(Vec::new());
+}
+
+fn run_ctx(
+    entry: &str,
+    progs: Vec<(String, rscel::Program)>,
+    binds: Vec<(String, CelValue)>,
+    ufuncs: Vec<(String, UFun)>,
+) -> String {
+    let mut ctx = rscel::CelContext::new();
+    for (n, p) in progs.into_iter() {
+        ctx.add_program(&n, p);
+    }
+    CALL_LOG.with(|l| l.borrow_mut().clear());
+    let closures: Vec<(String, Box<rscel::RsCelFunction>)> = ufuncs
+        .into_iter()
+        .map(|(n, u)| {
+            let name = n.clone();
+            let f: Box<rscel::RsCelFunction> = Box::new(move |this: CelValue, args: Vec<CelValue>| {
+                CALL_LOG.with(|l| l.borrow_mut().push((name.clone(), this.clone(), args.clone())));
+                match &u {
+                    UFun::Const(v) => v.clone(),
+                    UFun::Arg0 => args.get(0).cloned().unwrap_or(CelValue::Null),
+                    UFun::This => this,
+                    UFun::Args => CelValue::List(args),
+                }
+            });
+            (n, f)
+        })
+        .collect();
+    let mut bctx = rscel::BindContext::new();
+    for (k, v) in binds.into_iter() {
+        bctx.bind_param(&k, v);
+    }
+    for (n, f) in closures.iter() {
+        bctx.bind_func(n, f.as_ref());
+    }
+    let r = ctx.exec(entry, &bctx);
+    let mut out = match r {
+        Ok(v) => format!("OK {}", value_string(&v)),
+        Err(e) => return format!("ERR {}", print_err(&e)),
+    };
+    out.push_str(" LOG(");
+    CALL_LOG.with(|l| {
+        for (n, this, args) in l.borrow().iter() {
+            out.push(' ');
+            out.push_str(&hex(n.as_bytes()));
+            out.push(' ');
+            print_value(&mut out, this);
+            out.push(' ');
+            print_value(&mut out, &CelValue::List(args.clone()));
+        }
+    });
+    out.push_str(" )");
+    out
+}
+
+fn parse_binds(t: &mut Toks) -> Result<Vec<(String, CelValue)>, String> {
+    expect(t, "B(")?;
+    let mut v = Vec::new();
+    loop {
+        if t.peek() == Some(")") {
+            t.next()?;
+            break;
+        }
+        let n = unhex_str(t.next()?)?;
+        v.push((n, parse_value(t)?));
+    }
+    Ok(v)
+}
+
+fn parse_ufuncs(t: &mut Toks) -> Result<Vec<(String, UFun)>, String> {
+    expect(t, "F(")?;
+    let mut v = Vec::new();
+    loop {
+        if t.peek() == Some(")") {
+            t.next()?;
+            break;
+        }
+        let n = unhex_str(t.next()?)?;
+        let u = match t.next()? {
+            "const" => UFun::Const(parse_value(t)?),
+            "arg0" => UFun::Arg0,
+            "this" => UFun::This,
+            "args" => UFun::Args,
+            s => return Err(format!("ufun {}", s)),
+        };
+        v.push((n, u));
+    }
+    Ok(v)
+}
+
 fn run_case(line: &str) -> Result<String, String> {
     let mut t = Toks::new(line);
     let kind = t.next()?;
@@ -70,6 +186,82 @@ fn run_case(line: &str) -> Result<String, String> {
             Ok(if a.is_truthy() { "b1" } else { "b0" }.to_string())
         }
         "echo" => Ok(value_string(&parse_value(&mut t)?)),
+        "run" => {
+            // run <entry> P( name C( .. ) ... ) B( name value ... ) F( name kind ... )
+            let entry = unhex_str(t.next()?)?;
+            expect(&mut t, "P(")?;
+            let mut progs = Vec::new();
+            loop {
+                if t.peek() == Some(")") {
+                    t.next()?;
+                    break;
+                }
+                let n = unhex_str(t.next()?)?;
+                expect(&mut t, "C(")?;
+                let code = parse_code_body(&mut t)?;
+                progs.push((n, program_from_code(code)?));
+            }
+            let binds = parse_binds(&mut t)?;
+            let ufuncs = parse_ufuncs(&mut t)?;
+            Ok(run_ctx(&entry, progs, binds, ufuncs))
+        }
+        "func" => {
+            let name = unhex_str(t.next()?)?;
+            let this = parse_value(&mut t)?;
+            let args = match parse_value(&mut t)? {
+                CelValue::List(l) => l,
+                _ => return Err("args".to_string()),
+            };
+            let b = rscel::BindContext::new();
+            Ok(match b.get_func(&name) {
+                Some(f) => value_string(&f(this, args)),
+                None => "NOFUNC".to_string(),
+            })
+        }
+        "ctor" => {
+            // type constructor through the VM: args are pushed as plain values
+            let name = unhex_str(t.next()?)?;
+            let args = match parse_value(&mut t)? {
+                CelValue::List(l) => l,
+                _ => return Err("args".to_string()),
+            };
+            let n = args.len();
+            let mut code: Vec<rscel::ByteCode> = args.into_iter().rev().map(rscel::ByteCode::Push).collect();
+            code.push(rscel::ByteCode::Push(CelValue::Type(name)));
+            code.push(rscel::ByteCode::Call(n as u32));
+            let prog = program_from_code(code)?;
+            let r = run_ctx("main", vec![("main".to_string(), prog)], vec![], vec![]);
+            Ok(match r.strip_prefix("OK ") {
+                Some(rest) => rest.trim_end_matches(" LOG( )").to_string(),
+                None => r.strip_prefix("ERR ").unwrap_or(&r).to_string(),
+            })
+        }
+        "compile" => {
+            // compile <src> -> resolved bytecode and reported params
+            let src = match parse_value(&mut t)? {
+                CelValue::String(s) => s,
+                _ => return Err("compile: source".to_string()),
+            };
+            Ok(match rscel::Program::from_source(&src) {
+                Ok(p) => {
+                    let mut out = String::from("OK C(");
+                    for i in p.bytecode().iter() {
+                        out.push(' ');
+                        print_instr(&mut out, i);
+                    }
+                    out.push_str(" ) PARAMS(");
+                    let mut ps: Vec<&str> = p.params();
+                    ps.sort();
+                    for x in ps {
+                        out.push(' ');
+                        out.push_str(&hex(x.as_bytes()));
+                    }
+                    out.push_str(" )");
+                    out
+                }
+                Err(e) => format!("ERR {}", print_err(&e)),
+            })
+        }
         "eval" => {
             // eval <src> <bindings map>: compile as "main", bind, exec
             let src = match parse_value(&mut t)? {
